@@ -19,6 +19,9 @@ import (
 	"ebuverif/vrt"
 
 	eventbus "github.com/jilio/ebu"
+	ebuotel "github.com/jilio/ebu/otel"
+	sdkmetric "go.opentelemetry.io/otel/sdk/metric"
+	sdktrace "go.opentelemetry.io/otel/sdk/trace"
 )
 
 var kinds = []struct {
@@ -36,6 +39,7 @@ type kcase struct {
 	Cancel int   `json:"cancel"` // -2 never, -1 before the call, k>=0 inside handler k
 	Hooks  int   `json:"hooks"`  // bit0 legacy before, bit1 ctx before, bit2 legacy after, bit3 ctx after
 	Obs    bool  `json:"observability"`
+	Otel   bool  `json:"otel"` // the real OpenTelemetry implementation instead of the recording one
 	Setter bool  `json:"legacy_hooks_by_setter"`
 }
 
@@ -50,7 +54,7 @@ func (k kcase) String() string {
 	} else if k.Cancel >= 0 {
 		c = fmt.Sprintf("in-handler-%d", k.Cancel)
 	}
-	return fmt.Sprintf("[%s] cancel=%s hooks=%04b obs=%v setter=%v", strings.Join(hs, " "), c, k.Hooks, k.Obs, k.Setter)
+	return fmt.Sprintf("[%s] cancel=%s hooks=%04b obs=%v otel=%v setter=%v", strings.Join(hs, " "), c, k.Hooks, k.Obs, k.Otel, k.Setter)
 }
 
 type ctxKey struct{}
@@ -109,7 +113,15 @@ func (in *inst) Body() {
 	if k.Hooks&8 != 0 {
 		opts = append(opts, eventbus.WithAfterPublishContext(hookCtx("afterCtx")))
 	}
-	if k.Obs {
+	if k.Obs && k.Otel {
+		tp := sdktrace.NewTracerProvider()
+		mp := sdkmetric.NewMeterProvider(sdkmetric.WithReader(sdkmetric.NewManualReader()))
+		o, err := ebuotel.New(ebuotel.WithTracerProvider(tp), ebuotel.WithMeterProvider(mp))
+		if err != nil {
+			panic(err)
+		}
+		opts = append(opts, eventbus.WithObservability(o))
+	} else if k.Obs {
 		opts = append(opts, eventbus.WithObservability(recObs{&in.rec}))
 	}
 	bus := eventbus.New(opts...)
@@ -337,6 +349,9 @@ func cases(thorough bool) []kcase {
 		}
 		for _, cn := range cancels {
 			for hooks := 0; hooks < 16; hooks++ {
+				if hooks == 0 || hooks == 15 {
+					l = append(l, kcase{H: append([]int{}, cur...), Cancel: cn, Hooks: hooks, Obs: true, Otel: true})
+				}
 				for _, obs := range []bool{false, true} {
 					l = append(l, kcase{H: append([]int{}, cur...), Cancel: cn, Hooks: hooks, Obs: obs})
 					if hooks&5 != 0 && !obs {
